@@ -53,6 +53,7 @@ fn main() {
         "level" => level::run(&args[2]),
         "conc" => conc::run(&args[2]),
         "queue" => queue::run(&args[2]),
+        "qconc" => conc::run_queue(&args[2]),
         other => {
             eprintln!("unknown subcommand {other}");
             std::process::exit(2);
